@@ -77,6 +77,30 @@ pub mod vp_sig {
                 forall|k: Seq<char>| self.view().contains_key(k) ==> exists|i: int| 0 <= i < r@.len() && (#[trigger] r@[i]).0@ == k,
         { unimplemented!() }
     }
+    impl<V> JsonMap<V> {
+        /// `BTreeMap::new()`
+        #[verifier::external_body]
+        pub fn new() -> (r: Self) ensures r.view() == Map::<Seq<char>, V>::empty() { unimplemented!() }
+        #[verifier::external_body]
+        pub fn remove_entry(&mut self, k: &str) -> (r: Option<(String, V)>)
+            ensures final(self).view() == old(self).view().remove(k@),
+                r.is_some() == old(self).view().contains_key(k@),
+                r.is_some() ==> r.unwrap().0@ == k@ && r.unwrap().1 == old(self).view()[k@],
+        { unimplemented!() }
+        /// `self.entry(k).or_insert_with(|| default)` (T4 entry_or_insert_with): a reference to the value under `k`, which is
+        /// the existing one or `default` inserted; whatever the caller writes through it is the map's value under `k` afterwards
+        #[verifier::external_body]
+        pub fn entry_or_insert(&mut self, k: String, default: V) -> (r: &mut V)
+            ensures
+                *r == (if old(self).view().contains_key(k@) { old(self).view()[k@] } else { default }),
+                final(self).view() == old(self).view().insert(k@, *final(r)),
+        { unimplemented!() }
+        /// `get_mut`: only the value read through the reference is specified (the one caller reads it and drops the map)
+        #[verifier::external_body]
+        pub fn get_mut(&mut self, k: &str) -> (r: Option<&mut V>)
+            ensures r.is_some() == old(self).view().contains_key(k@), r.is_some() ==> *r.unwrap() == old(self).view()[k@],
+        { unimplemented!() }
+    }
     impl<V: Clone> Clone for JsonMap<V> {
         #[verifier::external_body]
         fn clone(&self) -> (r: Self) ensures r.view() == self.view() { unimplemented!() }
